@@ -1000,7 +1000,15 @@ class Generator:
         if not (set(l.real) & set(r.real)):
             return None
         # equality on a pair of corresponding visible int columns (same name on both sides)
-        names = [n for n in l.m.names() if r.m.tok_of_name(n) is not None and T[l.m.tok_of_name(n)].kind == "int" and l.m.tok_of_name(n) not in l.m.opaque]
+        names = [
+            n
+            for n in l.m.names()
+            if r.m.tok_of_name(n) is not None
+            and T[l.m.tok_of_name(n)].kind == "int"
+            and T[r.m.tok_of_name(n)].kind == "int"
+            and l.m.tok_of_name(n) not in l.m.opaque
+            and r.m.tok_of_name(n) not in r.m.opaque
+        ]
         if not names:
             return None
         n = rng.choice(names)
